@@ -30,6 +30,20 @@ def merged_events(resp):
     return out
 
 
+def cdata_payloads(evs):
+    """the character data of each CDATA section, in order (Expat marks the sections)"""
+    out, cur = [], None
+    for e in evs:
+        if e[0] == 'CD':
+            if e[1] == '[':
+                cur = b''
+            elif cur is not None:
+                out.append(cur); cur = None
+        elif e[0] == 'C' and cur is not None:
+            cur += e[1]
+    return out
+
+
 def transcode(x, enc):
     """re-encode an UTF-8 XML document; returns None when it cannot be done faithfully"""
     try:
@@ -74,7 +88,7 @@ def run(res, args):
     # ---------- (a) encoder options
     docs = [x for _, x in xmlgen.corpus_xml()]
     g = xmlgen.XmlTableGen(d, rng)
-    xs0 = rng.sample(docs, 60 if quick else len(docs)) + [g.doc() for _ in range(120 if quick else 4000)]
+    xs0 = rng.sample(docs, 60 if quick else len(docs)) + [g.doc() for _ in range(120 if quick else 4000)] + [xmlgen.syncml_xml(rng) for _ in range(40 if quick else 1500)]
     tuples = list(itertools.product([0, 1, 2, 3], [0, 1], [0, 1], [0, 1]))      # version keepws strtbl anonymous
     stats = {'sources': 0, 'encodings_decoded': 0, 'option_pairs_compared': 0, 'anonymous_headers_checked': 0}
     corr_diff, all_lines, all_inc, nsl = [], [], [], [0]
@@ -196,6 +210,9 @@ def run(res, args):
     # ---------- (b) decoder options
     wdocs = [w for _, w in wbgen.corpus_wbxml()]
     wsel = rng.sample(wdocs, 50 if quick else len(wdocs))
+    # SyncML documents with vObject / embedded payloads, several content items, elements beside the payload
+    inner = [x for n, x in wbgen.corpus_wbxml() if 'devinf' in n or 'ddf' in n] or wdocs[:1]
+    wsel += [wbgen.syncml_doc(d, rng, inner) for _ in range(40 if quick else 1500)]
     widths = [0, 1, 2, 3, 7, 255] if quick else list(range(0, 256, 5)) + [255]
     modes = [(0, 0), (2, 0)] + [(1, wd) for wd in widths]
     l2, own2 = [], []
@@ -218,10 +235,15 @@ def run(res, args):
         if (0, 0) not in g2 or not g2[(0, 0)][0]:
             continue
         compact = xmlcmp.norm_stream(g2[(0, 0)][1], False, False, False)
+        cd0 = cdata_payloads(g2[(0, 0)][1])
         for (gen, ind), (okp, evs, i) in g2.items():
             res.add_eval(l2[i][:2000])
             if not okp:
                 continue    # well-formedness is C05's business
+            # what stands inside a CDATA section is data in every generation mode: never indentation
+            if cdata_payloads(evs) != cd0:
+                report(f'the CDATA sections of the output differ between compact generation and mode {gen} (indent {ind})', l2[i][:300])
+                continue
             if gen == 2:
                 # canonical: exactly the same tree (CR is &#13; in both; LF/TAB in attribute values are
                 # normalised by the reader in compact output only)
